@@ -73,6 +73,8 @@ MODE_FLAGS = {
            "-fsanitize=signed-integer-overflow,shift,integer-divide-by-zero,unreachable,builtin",
            "-fsanitize-trap=all", "-mllvm", "-inline-threshold=1000000"],
     # type facts / call graph
+    # equivalence with some CNL functions cut out (made uninterpreted): front end only, then cut_functions + opt
+    "eqcut": ["-O2", "-fwrapv", "-Xclang", "-disable-llvm-passes"],
     "o0": ["-O0"],
     "o0g": ["-O0", "-g", "-fno-discard-value-names"],
     "o1ni": ["-O1", "-fno-inline", "-g"],
@@ -103,6 +105,75 @@ def run(cmd, timeout=1800, cwd=None):
 def clang_ll(src, out, mode, extra=()):
     cmd = [CLANGXX] + COMMON + MODE_FLAGS[mode] + list(extra) + ["-S", "-emit-llvm", src, "-o", out]
     return run(cmd) + (cmd,)
+
+
+def cut_functions(ll_in, ll_out, patterns):
+    """Replace the body of every defined function whose demangled name matches one of `patterns` (regexes) by a call of
+    an external function `vf_cut_<mangled name>` with the same signature, declared readnone: the function becomes an
+    uninterpreted pure function of its arguments, for the CNL kernel and the reference alike.  Only functions whose
+    parameters and result are scalars are cut.  Then the module is optimised (-O2, twice, everything else inlined).
+    Returns the list of demangled names cut."""
+    lines = open(ll_in).read().split("\n")
+    names = re.findall(r"^define [^@]*@([\w.$]+)\(", "\n".join(lines), re.M)
+    dem = demangle(names)
+    cut = dict((n, d) for n, d in dem.items() if any(re.search(p, d) for p in patterns))
+    out, decls, i = [], [], 0
+    done = []
+    while i < len(lines):
+        l = lines[i]
+        m = re.match(r"^define (?:[\w() ]+? )??((?:i\d+|float|double|x86_fp80)) @([\w.$]+)\((.*)\)[^()]*\{\s*$", l)
+        m2 = re.match(r"^define [^@]*@([\w.$]+)\(", l)
+        if m2 and m2.group(1) in cut:
+            mm = re.match(r"^define (.*?)(i\d+|float|double|x86_fp80) @([\w.$]+)\((.*)\)([^()]*)\{\s*$", l)
+            if not mm:
+                raise AnalysisBroken("cannot cut %s: result is not a scalar (`%s`)" % (cut[m2.group(1)], l[:200]))
+            ret, name, params = mm.group(2), mm.group(3), mm.group(4)
+            ptys, pnames = [], []
+            for k, part in enumerate([x.strip() for x in _split_params(params)] if params.strip() else []):
+                toks = part.split()
+                ty = toks[0]
+                if not re.match(r"^(i\d+|float|double|x86_fp80)$", ty):
+                    raise AnalysisBroken("cannot cut %s: parameter %d is not a scalar (`%s`)" % (cut[name], k, part))
+                ptys.append(ty)
+                pnames.append(toks[-1] if toks[-1].startswith("%") else "%%%d" % k)
+            head = "define linkonce_odr dso_local %s @%s(%s) {" % (ret, name, ", ".join("%s %s" % (t, n) for t, n in zip(ptys, pnames)))
+            out.append(head)
+            out.append("  %%vfr = call %s @vf_cut_%s(%s)" % (ret, name, ", ".join("%s %s" % (t, n) for t, n in zip(ptys, pnames))))
+            out.append("  ret %s %%vfr" % ret)
+            out.append("}")
+            decls.append("declare %s @vf_cut_%s(%s) #99999" % (ret, name, ", ".join(ptys)))
+            done.append(cut[name])
+            while lines[i] != "}":
+                i += 1
+        else:
+            out.append(l)
+        i += 1
+    out += decls + ["attributes #99999 = { nounwind readnone willreturn mustprogress nofree nosync }"]
+    ed = ll_out + ".cut.ll"
+    open(ed, "w").write("\n".join(out))
+    tmp = ll_out + ".o1.ll"
+    for a_, b_ in ((ed, tmp), (tmp, ll_out)):
+        rc, so, se = run([OPT, "-S", "-O2", "-inline-threshold=1000000", a_, "-o", b_])
+        if rc != 0:
+            raise AnalysisBroken("opt failed on the cut module: " + se[:800])
+    return done
+
+
+def _split_params(s):
+    out, depth, cur = [], 0, ""
+    for ch in s:
+        if ch in "([{<":
+            depth += 1
+        elif ch in ")]}>":
+            depth -= 1
+        if ch == "," and depth == 0:
+            out.append(cur)
+            cur = ""
+        else:
+            cur += ch
+    if cur.strip():
+        out.append(cur)
+    return out
 
 
 def gxx_syntax(src, extra=()):
